@@ -501,6 +501,8 @@ func (p *Process) onProcessEnd(state string) {
 	if p.readyProber != nil {
 		p.readyCancelFn()
 	}
+	// a process that ends without printing its ready log line will never become log ready
+	p.readyLogCancelFn(fmt.Errorf("process %s ended", p.getName()))
 	p.setState(state)
 	p.updateProcState()
 
